@@ -1,6 +1,7 @@
 mod daemon;
 mod fakecli;
 mod frame;
+mod hello;
 mod memtransport;
 mod reply;
 mod xmltok;
@@ -36,6 +37,7 @@ fn main() {
     match op.as_str() {
         "frame" => frame::main(&opts),
         "reply" => reply::main(&opts),
+        "hello" => hello::main(&opts),
         "daemon" => daemon::main(&opts),
         _ => {
             eprintln!("unknown op {op}");
